@@ -45,8 +45,13 @@ def sweep(ctx):
         jobs.append({'name': 'inst_all_' + tn, 'src': src, 'opt': '-O0', 'syntax_only': True})
     res = ctx.build_all(jobs)
     per_t = {}
+    members = {}
     for (t, tn), r in zip(TYPES, res):
         locs = {}
+        if not r[0]:
+            # "In instantiation of 'constexpr PhQ::Length<NumericType> PhQ::PlanarDisplacement<NumericType>::z() const [with ...]'"
+            for m in re.finditer(r"In instantiation of .*?PhQ::(?:ConstitutiveModel::)?(\w+)<NumericType>::(\w+)\(", r[1]):
+                members.setdefault((m.group(1), m.group(2)), set()).add(t)
         if not r[0]:
             for m in re.finditer(r'^(\S+?):(\d+):\d+: error: (.*)$', r[1], re.M):
                 f = m.group(1)
@@ -69,4 +74,6 @@ def sweep(ctx):
         else:
             for t in ts:
                 failing[(loc, t)] = per_t[t][loc]
-    return {'instances': len(cls) * 3, 'dead': dead, 'failing': failing}
+    return {'instances': len(cls) * 3, 'dead': dead, 'failing': failing,
+            'dead_members': sorted(k for k, v in members.items() if len(v) == len(TYPES)),
+            'failing_members': sorted((k, sorted(v)) for k, v in members.items() if len(v) != len(TYPES))}
